@@ -330,7 +330,7 @@ ppl_set_deterministic_timeout(unsigned long unscaled_weight,
   // FIXME: this implementation of timeouts is not thread-safe.
   // In case a deterministic timeout was already set.
   reset_deterministic_timeout();
-  static timeout_exception e;
+  static deterministic_timeout_exception e;
   typedef Parma_Polyhedra_Library::Weightwatch_Traits Traits;
   p_deterministic_timeout_object
     = new Weightwatch(Traits::compute_delta(unscaled_weight, scale),
